@@ -42,11 +42,12 @@ TECHNIQUE = 'runtime monitoring: schedule exploration by seeded yield injection 
 
 ALL_FAMILIES = dict(D.FAMILIES, **D.EXTRA_FAMILIES)
 TOOL = 1
+LATE = ('late_joiner', 'late_user')
 
 
 def plan(tier, seed):
     specs = []
-    nsched = 10 if tier == 'quick' else 140
+    nsched = 24 if tier == 'quick' else 140
     for fam in ALL_FAMILIES:
         for v in ('1.0', '1.1'):
             for part in range(2 if tier == 'quick' else 4):
@@ -71,15 +72,27 @@ class YieldInjector:
         self.lock = threading.Lock()
         self.active = False
         self.window_codes = {}
+        self.builder_tid = None
+        self.build_events = 0
+        self.phase_callers = ()
+        self.reset_phases()
         mon = sys.monitoring
         mon.use_tool_id(TOOL, 'vk-yield')
         mon.register_callback(TOOL, mon.events.PY_START, self._on_start)
+
+    def reset_phases(self):
+        self.phase = 0
+        self.phase_event0 = 0
+        self.phases = []        # [name, events] per phase: a phase starts at each call made directly by the build bodies
+        self.parks = {}         # (phase, offset) -> (release Event for the joiner, done Event of the joiner)
+        self.build_events = 0
 
     def mark_windows(self, xmlschema):
         from xmlschema.validators.builders import GlobalMaps
         from xmlschema.validators.xsd_globals import XsdGlobals
         from xmlschema.validators.simple_types import XsdSimpleType
         from xmlschema.caching import SchemaCache
+        self.phase_callers = (XsdGlobals.build.__code__, GlobalMaps.build.__code__)
         self.window_codes = {
             GlobalMaps.load.__code__: 'build', GlobalMaps.build.__code__: 'build',
             XsdGlobals.check.__code__: 'build',
@@ -103,6 +116,24 @@ class YieldInjector:
             return
         tid = threading.get_ident()
         w = self.window_codes.get(code)
+        if tid == self.builder_tid:
+            # late-joiner schedules: the builder's progress is the clock the joiners wait on, and the builder hands
+            # the GIL over at every call so that a released joiner runs while the build is still in progress
+            self.build_events += 1
+            back = sys._getframe(1).f_back
+            if back is not None and back.f_code in self.phase_callers:
+                self.phase += 1
+                self.phase_event0 = self.build_events
+                self.phases.append([code.co_qualname, 0])
+            if self.phases:
+                self.phases[-1][1] += 1
+            park = self.parks.get((self.phase, self.build_events - self.phase_event0))
+            if park:
+                # release the joiner that waits for this point and stay here until it is done; a joiner that blocks on
+                # the build lock cannot finish, hence the timeout
+                park[0].set()
+                park[1].wait(0.05)
+            time.sleep(0)
         with self.lock:
             if w:
                 self.recent_window[tid] = w
@@ -161,6 +192,10 @@ def obj_sig(o):
             tuple(obj_sig(c) for c in kids))
 
 
+def elem_sig(e):
+    return (e.tag, tuple(sorted(e.attrib.items())), e.text, e.tail, tuple(elem_sig(c) for c in e))
+
+
 OPS = ('is_valid', 'iter_errors', 'decode_lax', 'to_objects', 'encode', 'simple_scratch', 'lazy_errors')
 
 
@@ -180,8 +215,8 @@ def run_op(xmlschema, schema, op, text):
         data, errs = schema.decode(text, validation='lax')
         out = schema.encode(data, validation='lax')
         elem, eerrs = out if isinstance(out, tuple) else (out, [])
-        from xml.etree.ElementTree import tostring
-        return (tostring(elem) if elem is not None else None), [clean_reason(e.reason) for e in eerrs]
+        # not ET.tostring: its prefixes depend on the process-wide ET namespace registry, which other calls update
+        return (elem_sig(elem) if elem is not None else None), [clean_reason(e.reason) for e in eerrs]
     if op == 'lazy_errors':
         return [clean_reason(e.reason) for e in schema.iter_errors(xmlschema.XMLResource(text.encode('utf-8'), lazy=1))]
     if op == 'simple_scratch':
@@ -233,17 +268,45 @@ def run_threads(spec, res):
     old_interval = sys.getswitchinterval()
     traces = set()
 
+    # length of one build in PY_START events of the building thread (the joiners' clock)
+    probe = cls(xsd, build=False)
+    inj.builder_tid = threading.get_ident()
+    inj.reset_phases()
+    inj.start(0.0, rng)
+    probe.build()
+    inj.stop()
+    build_len = inj.build_events
+    probe_phases = [tuple(ph) for ph in inj.phases]
+    inj.builder_tid = None
+    res.count('build_length_events', build_len)
+    res.count('build_phases', len(probe_phases))
+    res.sets.setdefault('build_phase_names', set()).update(n for n, _ in probe_phases)
+
     for k in range(spec['schedules']):
-        scenario = ('build_race', 'validators', 'mixed', 'shared_lazy')[k % 4]
-        mode = 'stress' if k % 5 == 4 else 'inject'
+        scenario = ('build_race', 'validators', 'mixed', 'shared_lazy', 'late_joiner', 'late_user')[k % 6]
+        mode = 'stress' if k % 7 == 6 and scenario not in LATE else 'inject'
         p = (0.002, 0.02, 0.2)[k % 3]
         nthreads = rng.choice((2, 3, 4))
         sched_rng = env.rng_for(PROPERTY, 'sched', spec['seed'], fam, version, spec['part'], k)
         plans = []
         for t in range(nthreads):
             ops = OPS[:4] if scenario == 'validators' else OPS
-            plans.append([(sched_rng.choice(ops), sched_rng.randrange(len(pool))) for _ in range(4 if scenario == 'build_race' else 6)])
-        if scenario == 'build_race':
+            plans.append([(sched_rng.choice(ops), sched_rng.randrange(len(pool))) for _ in range(4 if scenario == 'build_race' or scenario in LATE else 6)])
+        targets = None
+        if scenario in LATE:
+            # thread 0 builds; the others arrive when the build has made a drawn amount of progress (biased to its tail,
+            # where the components exist but the final passes are still running)
+            targets = [None]
+            for _ in range(nthreads - 1):
+                r = sched_rng.random()
+                if r < 0.6:      # just after a phase boundary, later phases preferred
+                    ph = sched_rng.randrange(max(0, len(probe_phases) - 10), len(probe_phases)) if sched_rng.random() < 0.7 \
+                        else sched_rng.randrange(len(probe_phases))
+                    targets.append([ph + 1, sched_rng.randrange(0, 4)])
+                else:            # anywhere, weighted by phase length
+                    ph = sched_rng.choices(range(len(probe_phases)), weights=[n for _, n in probe_phases])[0]
+                    targets.append([ph + 1, sched_rng.randrange(0, probe_phases[ph][1])])
+        if scenario == 'build_race' or scenario in LATE:
             schema = cls(xsd, build=False)
             lock = CountingLock(schema.maps._build_lock)
             try:
@@ -268,14 +331,41 @@ def run_threads(spec, res):
                 pass
             if scenario == 'build_race':
                 out.append(('build', safe(xmlschema, lambda: schema.build())))
+            elif scenario in LATE:
+                if t == 0:
+                    inj.builder_tid = threading.get_ident()
+                    out.append(('build', safe(xmlschema, lambda: schema.build())))
+                    inj.builder_tid = None
+                    builder_done.set()
+                else:
+                    while not releases[t].is_set() and not builder_done.is_set():
+                        time.sleep(0)
+                    arrived[t] = (inj.phase, builder_done.is_set())
+                    if scenario == 'late_joiner':
+                        # the documented way to share an unbuilt schema: every user calls build() first
+                        out.append(('build', safe(xmlschema, lambda: schema.build())))
             for op, i in plans[t]:
                 if scenario == 'shared_lazy' and op == 'lazy_errors':
                     out.append((('shared_lazy', 0), safe(xmlschema, lambda: [clean_reason(e.reason) for e in schema.iter_errors(shared_lazy)])))
                 else:
                     out.append(((op, i), safe(xmlschema, lambda: run_op(xmlschema, schema, op, pool[i]))))
             results[t] = out
+            if t in dones:
+                dones[t].set()
 
+        builder_done = threading.Event()
+        arrived = {}
+        inj.reset_phases()
+        releases, dones = {}, {}
+        if scenario in LATE:
+            for t in range(1, nthreads):
+                releases[t], dones[t] = threading.Event(), threading.Event()
+                inj.parks.setdefault(tuple(targets[t]), (releases[t], dones[t]))
+                if inj.parks[tuple(targets[t])][0] is not releases[t]:      # two joiners drew the same point
+                    releases[t], dones[t] = inj.parks[tuple(targets[t])]
         threads = [threading.Thread(target=body, args=(t,), daemon=True) for t in range(nthreads)]
+        if scenario in LATE:
+            sys.setswitchinterval(1e-4)
         if mode == 'stress':
             sys.setswitchinterval(1e-6)
             inj.start(0.0, sched_rng)
@@ -304,11 +394,16 @@ def run_threads(spec, res):
             traces.add(trace_hash)
             res.nontrivial.add(trace_hash)
         case = {'family': fam, 'version': version, 'scenario': scenario, 'mode': mode, 'p': p, 'threads': nthreads,
-                'plans': plans, 'docs': pool, 'schedule_seed': [spec['seed'], spec['part'], k]}
+                'plans': plans, 'targets': targets, 'docs': pool, 'schedule_seed': [spec['seed'], spec['part'], k]}
         if stuck:
             res.inconclusive_case('thread still alive after join timeout', {'scenario': scenario, 'k': k})
             break
-        if scenario == 'build_race':
+        if scenario in LATE:
+            for t, (ph, done) in arrived.items():
+                res.count(scenario + ':arrived_' + ('after_build' if done else 'during_build'))
+                if not done and 0 < ph <= len(inj.phases):
+                    res.count('late:arrived_in_phase:' + inj.phases[ph - 1][0])
+        if scenario == 'build_race' or scenario in LATE:
             n = calls.counts['GlobalMaps.load']
             res.count('build_body_executions', n)
             if n != 1:
@@ -334,6 +429,10 @@ def run_threads(spec, res):
                         res.count('shared_lazy:documented_error')
                     continue
                 want = baseline[key]
+                if scenario == 'late_user' and t and got[0] == 'exc' and got[1] == 'XMLSchemaNotBuiltError':
+                    # a user that did not call build() may find the schema unbuilt, as it would single-threaded
+                    res.count('late_user:not_built_error')
+                    continue
                 if got != want:
                     bad = (t, f'{key[0]}(doc {key[1]}): got {str(got)[:200]} sequential {str(want)[:200]}')
                     break
@@ -343,6 +442,11 @@ def run_threads(spec, res):
             kind = 'foreign-exception-in-thread' if 'foreign' in bad[1][:80] else 'thread-result-differs'
             if scenario == 'shared_lazy' and 'shared lazy' in bad[1]:
                 kind = 'shared-lazy-resource-corrupted'
+            if scenario == 'late_user':
+                kind = 'unbuilt-schema-used-while-another-thread-builds'
+                scenario_tag = 'foreign-exception' if 'foreign' in bad[1][:80] else 'result-differs'
+                res.violation(f'{kind}:{scenario_tag}', case, f'{fam} {version} p={p} thread {bad[0]}: {bad[1]}')
+                continue
             res.violation(f'{kind}:{scenario}', case, f'{fam} {version} {scenario}/{mode} p={p} thread {bad[0]}: {bad[1]}')
         else:
             res.count('schedules:agree')
@@ -391,6 +495,8 @@ def finalize(res, tier):
         reasons.append('no hand-over was observed while a thread was inside the build window')
     if c.get('switches', 0) < 1000:
         reasons.append('fewer than 1000 context switches observed')
+    if not c.get('late_joiner:arrived_during_build'):
+        reasons.append('no late joiner arrived while the build was in progress')
     if c.get('schedules:agree', 0) < 50:
         reasons.append('fewer than 50 schedules compared')
     return {'inconclusive': reasons}
